@@ -3,6 +3,7 @@ import hashlib
 import json
 import os
 import random
+import re
 import sys
 import traceback
 from collections import Counter
@@ -121,9 +122,25 @@ class Ctx:
         self.total_products = 0
         self.step_out = {}  # sid -> materialised step
         self.saved_states = {}
+        self.algs = {}  # name -> (algorithm object, digest of its __dict__)
+        self.auto_defaults = [(o, self.alg_digest(o)) for o in world.AUTO_DEFAULTS]
         self.fired = Counter()
         self.samples = []
         self.sched_sig = []  # abstract schedule signature
+
+    @staticmethod
+    def alg_digest(obj):
+        def d(v):
+            if isinstance(v, np.ndarray):
+                return "arr:" + arr_digest(v, with_layout=True)
+            if rm.is_op(v):
+                return "op:%s:%s" % (type(v).__name__, tuple(v.shape))
+            if isinstance(v, dict):
+                return {str(k): d(x) for k, x in sorted(v.items(), key=lambda kv: str(kv[0]))}
+            if isinstance(v, (list, tuple)):
+                return [d(x) for x in v]
+            return repr(v)
+        return jhash({"cls": type(obj).__name__, "d": d(dict(vars(obj)))})
 
     # ------------------------------------------------------------------ probe / scheduler
     def make_probe(self, inner, pid):
@@ -244,7 +261,9 @@ class Ctx:
                     cur.depth -= 1
 
     def reentrant_call(self, cur, sub):
-        from .calls import call
+        from .calls import FNS, call
+        if sub.get("fn") not in FNS or not self.slots_ok(sub.get("args", {})):
+            return
         key = call_key(sub)
         same = key == call_key(cur.step)
         self.stats["reenter_same_key" if same else "reenter_other_key"] += 1
@@ -279,6 +298,8 @@ class Ctx:
                 return self.pool[v["slot"]].op
             if "arr" in v:
                 return self.builder.array(v["arr"])
+            if "algobj" in v:
+                return self.algs[v["algobj"]][0]
             return {k: self.resolve(x) for k, x in v.items()}
         return v
 
@@ -287,7 +308,9 @@ class Ctx:
             if isinstance(v, dict):
                 if "slot" in v and v["slot"] not in self.pool:
                     return False
-                if "slot" not in v and "arr" not in v and not self.slots_ok(v):
+                if "algobj" in v and v["algobj"] not in self.algs:
+                    return False
+                if "slot" not in v and "arr" not in v and "algobj" not in v and not self.slots_ok(v):
                     return False
         return True
 
@@ -331,6 +354,16 @@ class Ctx:
                     raise Violation("C18", "I-INPUT", {
                         "what": "caller-owned array changed (bytes/shape/strides/flags)", "arrays": bad[:4],
                         "after": after})
+                for name, (obj, dig) in self.algs.items():
+                    if self.alg_digest(obj) != dig:
+                        raise Violation("C18", "I-INPUT", {
+                            "what": "caller-owned algorithm object was altered by a call", "alg": name,
+                            "cls": type(obj).__name__, "after": after})
+                for obj, dig in self.auto_defaults:
+                    if self.alg_digest(obj) != dig:
+                        raise Violation("C18", "I-INPUT", {
+                            "what": "a shared default Auto() instance of a public signature was altered",
+                            "attrs": sorted(vars(obj))[:6], "after": after})
                 for slot, e in self.pool.items():
                     self.check_entry(slot, e, after)
         finally:
@@ -384,15 +417,17 @@ class Ctx:
                 "non_array_leaves": nonarr[:4], "after": after,
                 "signature": self.registry_signature(op, missing)})
         # substitution: perturb one leaf (seed-derived choice), exactly that parameter changes
-        if leaves and "sparse" not in canon(e.recipe):
-            j = sub_rng(self.seed, "subst", slot, after).randrange(len(leaves))
+        ids = [id(x) for x in leaves]
+        uniq = [i for i, x in enumerate(ids) if ids.count(x) == 1]  # one array passed as two parameters: skip those
+        if uniq and "sparse" not in canon(e.recipe):
+            j = uniq[sub_rng(self.seed, "subst", slot, after).randrange(len(uniq))]
             new = list(leaves)
             pert = np.array(leaves[j], copy=True)
             if pert.size:
                 if pert.dtype.kind in "iu":
-                    pert = pert[::-1].copy() if pert.ndim else pert + 1
+                    pert = pert[::-1].copy() if pert.ndim else np.asarray(pert + 1)
                 else:
-                    pert = pert + np.asarray(1.5, dtype=pert.dtype)
+                    pert = np.asarray(pert + np.asarray(1.5, dtype=pert.dtype))  # 0-d + 0-d gives a scalar
             new[j] = pert
             try:
                 op3 = unflatten(new)
@@ -481,6 +516,20 @@ class Ctx:
         self.sched_sig.append("u:" + step["act"][0])
         self.check_invariants(sid, "user step %d" % sid)
 
+    def op_mkalg(self, step, out_step):
+        """The user builds an algorithm object once and reuses it across calls."""
+        from .calls import _alg
+        name = step["name"]
+        if name in self.algs or not self.slots_ok(step.get("kw", {})):
+            self.events.append(("skip", step["id"]))
+            return
+        kw = self.resolve_args(step.get("kw", {}))
+        obj = _alg(step["cls"], kw)
+        self.algs[name] = (obj, self.alg_digest(obj))
+        self.stats["alg_objects_made"] += 1
+        self.events.append(("mkalg", step["id"], step["cls"]))
+        self.sched_sig.append("mkalg:" + step["cls"])
+
     def op_import(self, step, out_step):
         import importlib
         try:
@@ -512,8 +561,9 @@ class Ctx:
             ALLOC.pause()
             self.harness_depth += 1
             try:
-                e = Entry(op, rm.op_fingerprint(op), rm.params_digest(op), step.get("structural", True),
-                          step["recipe"], step["id"])
+                structural = step.get("structural", True) and all(
+                    self.pool[s].structural for s in recipe_slots(step["recipe"]) if s in self.pool)
+                e = Entry(op, rm.op_fingerprint(op), rm.params_digest(op), structural, step["recipe"], step["id"])
                 self.pool[step["slot"]] = e
                 self.stats["ops_made:" + type(op).__name__.split("[")[0]] += 1
             finally:
@@ -828,7 +878,17 @@ def _pos(spec, n, g):
     return g.randrange(n)
 
 
+_ARGERR = re.compile(r"^([\w\.<>]+)\(\) (takes|got|missing)")
+
+
 def _raised_in_harness(e):
+    if isinstance(e, TypeError):
+        # wrong-arity errors are raised in the CALLER's frame; if the callee named in the message is
+        # not one of the harness' own thin wrappers it is cola's refusal (e.g. Identity.to(device, dtype))
+        m = _ARGERR.match(str(e))
+        if m and not m.group(1).split(".")[-1].startswith("_") and m.group(1).split(".")[0] not in (
+                "call", "Builder", "Ctx"):
+            return False
     tb = e.__traceback__
     last = None
     while tb is not None:
@@ -842,6 +902,19 @@ def _raised_in_harness(e):
 
 def call_key(step):
     return canon({"fn": step["fn"], "args": step.get("args", {})})
+
+
+def recipe_slots(r, out=None):
+    out = [] if out is None else out
+    if isinstance(r, dict):
+        if r.get("k") == "ref":
+            out.append(r.get("slot"))
+        for v in r.values():
+            recipe_slots(v, out)
+    elif isinstance(r, list):
+        for v in r:
+            recipe_slots(v, out)
+    return out
 
 
 def recipe_refs_ok(r, pool):
@@ -906,5 +979,7 @@ def run_program(program):
                                 + ctx.stats["reenter_same_key"] + ctx.stats["reenter_other_key"]
                                 + ctx.stats["reseed_inside_callback"]) > 0),
         "program": mat,
+        "call_results": ({k: jhash(v["out"]) for k, v in ctx.results.items()}
+                         if (program.get("config") or {}).get("letters") else None),
         "results_digest": jhash({k: v["out"] for k, v in ctx.results.items()}),
     }
